@@ -1,3 +1,4 @@
+import RavenModel.Model.Plan
 import RavenModel.Model.Durable
 /-! # C07 — a crash at any instant leaves usable stores and keeps acknowledged work -/
 namespace Raven.Props.C07
@@ -47,5 +48,25 @@ theorem old_rule_refuted : usable 5 (openDbOld 5 (crashedAt 5 1)) = false := by 
 /-- non-vacuity: a run with two sessions, a crash in the middle of the second and a retry -/
 example : (([Ev.start 1, .adv 1, .adv 1, .start 2, .adv 2, .adv 1, .crash, .start 3, .adv 3, .adv 3, .adv 3] : List Ev).foldl step init).links = [(2, 3), (1, 1)] ∧
     (([Ev.start 1, .adv 1, .adv 1, .start 2, .adv 2, .adv 1, .crash, .start 3, .adv 3, .adv 3, .adv 3] : List Ev).foldl step init).acked = [3, 1] := by decide
+
+/-! ## acknowledged ⇒ committed, in the code's own statement order (plan regenerated from /repo on every run) -/
+
+/-- the operations whose acknowledgement the property protects -/
+def ackedOps : List Raven.Bytes :=
+  [(b!"lmtp.handleDATA"), (b!"message.HandleAppendWithReader"), (b!"message.HandleCopy"), (b!"uid.handleUIDCopy"),
+   (b!"message.HandleStore"), (b!"message.HandleExpunge"), (b!"uid.handleUIDExpunge"), (b!"selection.HandleClose"),
+   (b!"mailbox.HandleCreate"), (b!"mailbox.HandleDelete"), (b!"mailbox.HandleRename"), (b!"mailbox.HandleSubscribe"),
+   (b!"mailbox.HandleUnsubscribe")]
+
+/-- C07.9  in the plan of every acknowledged operation the last write precedes the acknowledgement, every transaction that
+is begun is committed in line before it, and no write or commit sits in a deferred call or a goroutine: when the client reads
+`250` / the tagged `OK`, every statement of the operation has been committed (the `ack` event of `Durable` is the last step). -/
+theorem plan_ack_after_commit : ackedOps.all (fun op => Raven.Plan.ackAfterCommit (Raven.Plan.trace op)) = true := by decide
+
+/-- C07.9'  both ways of adding a message (delivery, APPEND) perform the steps of the machine in the machine's order:
+message row, part rows, UID allocation, link row, acknowledgement. -/
+theorem plan_machine_order :
+    Raven.Plan.deliveryOrder (Raven.Plan.trace (b!"lmtp.handleDATA")) = true ∧
+    Raven.Plan.deliveryOrder (Raven.Plan.trace (b!"message.HandleAppendWithReader")) = true := by decide
 
 end Raven.Props.C07
